@@ -4,8 +4,8 @@
            gen/GenSimdConst.v, regenerated from simd/x86_64/*.asm on every run)
    c_*   : the C code of src/*.c (constants regenerated from the C files). *)
 From Coq Require Import List ZArith String Bool.
-From LJT Require Import lib.Words gen.GenSimdConst model.SimdColor model.SimdSample model.SimdQuant model.SimdDct model.SimdIdctFast model.SimdFdctInt model.SimdRows
-  proofs.SimdColorProofs proofs.SimdSampleProofs proofs.SimdQuantProofs proofs.SimdConstProofs proofs.SimdDctProofs proofs.SimdIdctFastProofs proofs.SimdFdctIntProofs proofs.SimdRowsProofs.
+From LJT Require Import lib.Words gen.GenSimdConst model.SimdColor model.SimdSample model.SimdQuant model.SimdDct model.SimdIdctFast model.SimdFdctInt model.SimdIdctInt model.SimdAvx2Shuffle model.SimdRows
+  proofs.SimdColorProofs proofs.SimdSampleProofs proofs.SimdQuantProofs proofs.SimdConstProofs proofs.SimdDctProofs proofs.SimdIdctFastProofs proofs.SimdFdctIntProofs proofs.SimdIdctIntProofs proofs.SimdDctBoundsProofs proofs.SimdAvx2ShuffleProofs proofs.SimdRowsProofs.
 Import ListNotations.
 Local Open Scope Z_scope.
 
@@ -178,6 +178,46 @@ Theorem C05_fdct_islow_eq_partial : forall blk, List.length blk = 64%nat -> c_fd
   asm_fdct_islow blk = c_fdct_islow blk.
 Proof. exact fdct_islow_eq_partial. Qed.
 Print Assumptions C05_fdct_islow_eq_partial.
+
+(* (9) accurate inverse DCT (jidctint): for ALL coefficient blocks and multiplier tables inside c_idct_islow_ok
+   (dequantised coefficients, the four 16-bit sums and the workspace fit a short, dword lanes fit 32 bits, results
+   within the linear part [-512, 511] of the range-limit table) the kernel equals jpeg_idct_islow incl. the zero-AC
+   shortcuts of the C code and the whole-block DC shortcut of the kernel *)
+Theorem C05_idct_islow_eq_partial : forall coef q, List.length coef = 64%nat -> List.length q = 64%nat ->
+  c_idct_islow_ok coef q = true -> asm_idct_islow coef q = c_idct_islow coef q.
+Proof. exact idct_islow_eq_partial. Qed.
+Print Assumptions C05_idct_islow_eq_partial.
+(* (10) the boundary contains all real data: EVERY block of level-shifted 8-bit samples satisfies c_fdct_islow_ok
+   (stage-wise exact linear bounds), hence the accurate forward DCT kernel equals the C code with no side condition *)
+Theorem C05_fdct_islow_eq_all_samples : forall blk, List.length blk = 64%nat -> Forall (fun v => -128 <= v <= 127) blk ->
+  c_fdct_islow_ok blk = true /\ asm_fdct_islow blk = c_fdct_islow blk.
+Proof. exact (fun blk HL HS => conj (fdct_islow_ok_all_samples blk HL HS) (fdct_islow_eq_all_samples blk HL HS)). Qed.
+Print Assumptions C05_fdct_islow_eq_all_samples.
+(* the fast forward DCT is exact for every block within 64 grey levels of mid-grey; it is NOT for all 8-bit blocks
+   (C05_fdct_ifast_full_refuted: c_wraps14 stripes = true is exactly finding ifast-operand-ge-8192) *)
+Theorem C05_fdct_ifast_eq_lowcontrast : forall blk, List.length blk = 64%nat -> Forall (fun v => -64 <= v <= 64) blk ->
+  c_wraps14 blk = false /\ asm_fdct_ifast blk = c_fdct_ifast blk.
+Proof. exact (fun blk HL HS => conj (fdct_ifast_nowrap_lowcontrast blk HL HS) (fdct_ifast_eq_lowcontrast blk HL HS)). Qed.
+Print Assumptions C05_fdct_ifast_eq_lowcontrast.
+(* dequantised coefficients of a real encoder fit a short (first conjunct of both IDCT boundaries): F a stored DCT
+   coefficient, quantised by rounding division by 8*qv (quantize(), C07) and multiplied back by the 8-bit table entry *)
+Theorem C05_real_dequantised_fits16 : forall F qv, f16 F -> 1 <= qv <= 255 ->
+  let c := round_quant F (8 * qv) in f16 (c * qv) /\ - (Z.abs F / 8 + qv) <= c * qv <= Z.abs F / 8 + qv.
+Proof. exact real_dequantised_fits16. Qed.
+Print Assumptions C05_real_dequantised_fits16.
+
+(* (11) AVX2 layout: the DOTRANSPOSE macros of jfdctint-avx2.asm / jidctint-avx2.asm, interpreted instruction by
+   instruction as read from the source, are the transpositions between the (row r | row r+4) and the column-pair
+   register layouts DODCT pairs its operands by; the AVX2 constant rows are the SSE2 rows in those positions *)
+Theorem C05_avx2_dct_layout_positions :
+  outs4 (run jfdctint_avx2_dotranspose (regfile (rowt 0 ++ rowt 4) (rowt 1 ++ rowt 5) (rowt 2 ++ rowt 6) (rowt 3 ++ rowt 7))) =
+    Some [colt 1 ++ colt 0; colt 3 ++ colt 2; colt 4 ++ colt 5; colt 6 ++ colt 7] /\
+  outs4 (run jidctint_avx2_dotranspose (regfile (colt 0 ++ colt 1) (colt 3 ++ colt 2) (colt 4 ++ colt 5) (colt 7 ++ colt 6))) =
+    Some [rowt 0 ++ rowt 4; rowt 1 ++ rowt 5; rowt 2 ++ rowt 6; rowt 3 ++ rowt 7] /\
+  jfdctint_avx2_dotranspose_calls = [[0; 1; 2; 3; 4; 5; 6; 7]; [0; 1; 2; 4; 3; 5; 6; 7]] /\
+  jidctint_avx2_dotranspose_calls = [[0; 1; 2; 3; 4; 5; 6; 7]; [0; 1; 2; 4; 3; 5; 6; 7]].
+Proof. exact (conj jfdctint_avx2_transpose_positions (conj jidctint_avx2_transpose_positions avx2_transpose_calls)). Qed.
+Print Assumptions C05_avx2_dct_layout_positions.
 
 (* non-vacuity *)
 Example C05_rgb_ycc_nonvacuous :
